@@ -193,6 +193,11 @@ class WSGIContainer:
         if "server" not in header_set:
             headers.append(("Server", "TornadoServer/%s" % tornado.version))
 
+        if request.method == "HEAD" or status_code == 304:
+            # These responses have no body on the wire (HTTP1Connection refuses
+            # to write one); the headers still describe the application's body.
+            body = b""
+
         start_line = httputil.ResponseStartLine("HTTP/1.1", status_code, reason)
         header_obj = httputil.HTTPHeaders()
         for key, value in headers:
